@@ -62,6 +62,8 @@ type c19Case struct {
 	overrideBoth bool
 	netMode      string                  // "unreachable" | "fake-pcs"
 	resp         map[string]gen.Response // served by the fake PCS
+	tz           string                  // TZ of the tool's process ("" = inherited)
+	nearNow      bool                    // the case depends on the time it was generated at
 }
 
 func (c *c19Case) fault(cls int, why string) {
@@ -100,7 +102,7 @@ func drawC19(t *rapid.T, dir string, toolQuote map[string][]byte) *c19Case {
 	pick := func(label string, options []string) string {
 		v := rapid.SampledFrom(options).Draw(t, label)
 		switch v {
-		case "nothex", "toolong", "wronglen", "wide", "garbage", "three", "maybe", "garbage-binary", "garbage-text", "missing", "empty", "bogus":
+		case "nothex", "toolong", "wronglen", "wide", "garbage", "three", "maybe", "garbage-binary", "garbage-text", "text-unknown-field", "missing", "empty", "bogus":
 			if !allowUsage {
 				return options[0]
 			}
@@ -108,7 +110,7 @@ func drawC19(t *rapid.T, dir string, toolQuote map[string][]byte) *c19Case {
 			if !allowPolicy {
 				return options[0]
 			}
-		case "forged", "unparsable", "B":
+		case "forged", "unparsable", "B", "expired-3h-ago", "valid-from-3h-ahead":
 			if !allowVerify {
 				return options[0]
 			}
@@ -124,6 +126,21 @@ func drawC19(t *rapid.T, dir string, toolQuote map[string][]byte) *c19Case {
 	}
 	w.Q.TeeTcbSvn[1] = 0
 	w.HonestCollateral()
+	// the tool judges validity at the current time, whatever the time zone of its process: a leaf whose window
+	// ends or starts a few hours from now, and a TZ on either side of UTC
+	now0 := time.Now()
+	leafTime := pick("leafTime", []string{"wide", "wide", "wide", "wide", "expired-3h-ago", "valid-from-3h-ahead", "expires-in-3h", "valid-since-3h"})
+	switch leafTime {
+	case "expired-3h-ago":
+		w.LeafSpec.W = gen.Window{NotBefore: gen.Wide.NotBefore, NotAfter: now0.Add(-3 * time.Hour).Truncate(time.Second)}
+	case "valid-from-3h-ahead":
+		w.LeafSpec.W = gen.Window{NotBefore: now0.Add(3 * time.Hour).Truncate(time.Second), NotAfter: gen.Wide.NotAfter}
+	case "expires-in-3h":
+		w.LeafSpec.W = gen.Window{NotBefore: gen.Wide.NotBefore, NotAfter: now0.Add(3 * time.Hour).Truncate(time.Second)}
+	case "valid-since-3h":
+		w.LeafSpec.W = gen.Window{NotBefore: now0.Add(-3 * time.Hour).Truncate(time.Second), NotAfter: gen.Wide.NotAfter}
+	}
+	c.tz = rapid.SampledFrom([]string{"", "", "UTC", "America/Los_Angeles", "Asia/Tokyo", "Pacific/Kiritimati", "Pacific/Pago_Pago"}).Draw(t, "TZ")
 	w.Build()
 	q := w.Q
 	write := func(name string, b []byte) string {
@@ -156,6 +173,13 @@ func drawC19(t *rapid.T, dir string, toolQuote map[string][]byte) *c19Case {
 		raw = testdata.RawQuote
 		q, _ = gen.RefParse(raw)
 		rootIsA = false
+	}
+	if leafTime != "wide" && (quoteKind == "valid" || quoteKind == "forged") {
+		c.nearNow = true
+		c.desc = append(c.desc, "leaf:"+leafTime, "TZ="+c.tz)
+		if leafTime == "expired-3h-ago" || leafTime == "valid-from-3h-ahead" {
+			c.fault(clsVerify, "PCK leaf "+leafTime)
+		}
 	}
 	inform := pick("inform", []string{"bin", "bin", "proto", "textproto", "default", "bogus"})
 	data := raw
@@ -579,7 +603,24 @@ func drawC19(t *rapid.T, dir string, toolQuote map[string][]byte) *c19Case {
 	}
 	// ---- config file ----
 	if cfg != nil {
-		switch pick("configFormat", []string{"binary", "text", "text", "garbage-binary", "garbage-text", "missing"}) {
+		switch pick("configFormat", []string{"binary", "text", "text", "garbage-binary", "garbage-text", "text-unknown-field", "missing"}) {
+		case "text-unknown-field":
+			// a well-formed text config with a field name the schema does not have (misspelled or misplaced): malformed
+			b, _ := prototext.Marshal(cfg)
+			extra := "no_such_field: 1\n"
+			switch {
+			case cfg.RootOfTrust == nil && rapid.Bool().Draw(t, "misspelledRot"):
+				extra = "root_of_trust { cabundle_path: \"/nonexistent.pem\" }\n"
+			case cfg.Policy == nil && rapid.Bool().Draw(t, "misplacedPolicyField"):
+				extra = "policy { mr_td: \"00\" }\n"
+			}
+			if rapid.Bool().Draw(t, "unknownFirst") {
+				b = append([]byte(extra), b...)
+			} else {
+				b = append(append(b, '\n'), extra...)
+			}
+			c.args = append(c.args, "-config="+write("config.textproto", b))
+			c.fault(clsUsage, "text config with an unknown field")
 		case "binary":
 			b, _ := proto.Marshal(cfg)
 			c.args = append(c.args, "-config="+write("config.pb", b))
@@ -635,6 +676,9 @@ func verifyTimes(now time.Time) verify.TimeSet {
 func runTool(tool string, c *c19Case) (int, string, error) {
 	cmd := exec.Command(tool, c.args...)
 	cmd.Env = os.Environ()
+	if c.tz != "" {
+		cmd.Env = append(cmd.Env, "TZ="+c.tz)
+	}
 	if c.netMode == "fake-pcs" && thePCS != nil {
 		thePCS.set(c.resp)
 		cmd.Env = append(cmd.Env, thePCS.env()...)
@@ -722,7 +766,7 @@ func TestC19(t *testing.T) {
 				}
 			}
 		}
-		rp := map[string]any{"kind": "tool", "args": templArgs(c.args, dir), "desc": c.desc, "files": files, "stdin_hex": hex.EncodeToString(c.stdin), "allowed": al, "dir": dir}
+		rp := map[string]any{"kind": "tool", "args": templArgs(c.args, dir), "desc": c.desc, "files": files, "stdin_hex": hex.EncodeToString(c.stdin), "allowed": al, "dir": dir, "tz": c.tz, "near_now": c.nearNow, "made_at": time.Now().Unix()}
 		detail := fmt.Sprintf("args=%v case=%v: exit %d, allowed %v; stderr: %s", relArgs(c.args, dir), c.desc, code, al, lastLine(stderr))
 		if code == -2 {
 			gen.Fail(t, gen.Violation{Key: "tool-hangs", Oracle: "the tool terminates", Detail: detail, Replay: rp})
@@ -755,6 +799,125 @@ func TestC19(t *testing.T) {
 			gen.NonTrivial(strings.Join(c.desc, ";"), al)
 		}
 		gen.Sample("tool", map[string]any{"case": c.desc, "exit": code})
+	})
+
+	// Config decoding on its own: a quote that verifies and a config whose content (when it decodes) is satisfied,
+	// so that the ONLY thing deciding between exit 0 and exit 1 is whether the config file is well-formed.
+	gen.Prop(t, "config-decoding", gen.N(250, 8000), func(t *rapid.T) {
+		n++
+		dir := filepath.Join(base, fmt.Sprintf("cfg%d", n%8))
+		_ = os.RemoveAll(dir)
+		if err := os.MkdirAll(dir, 0o755); err != nil {
+			gen.HarnessError(t, "mkdir: %v", err)
+		}
+		s := gen.NewStream(rapid.Uint64().Draw(t, "content"), "c19cfg")
+		pA := gen.NewPKI(gen.PKISpec{Seed: "pki-A"})
+		w := gen.NewWorld(pA, s)
+		binary.LittleEndian.PutUint64(w.Q.Xfam[:], gen.XfamFixed1|(s.Uint64()&gen.XfamFixed0))
+		binary.LittleEndian.PutUint64(w.Q.TdAttr[:], s.Uint64()&gen.TdAttrAllowed)
+		w.Q.TeeTcbSvn[1] = 0
+		w.HonestCollateral()
+		w.Build()
+		wr := func(name string, b []byte) string {
+			p := filepath.Join(dir, name)
+			if err := os.WriteFile(p, b, 0o644); err != nil {
+				gen.HarnessError(t, "write %s: %v", p, err)
+			}
+			return p
+		}
+		cfg := &ccpb.Config{}
+		if rapid.Bool().Draw(t, "rot") {
+			cfg.RootOfTrust = &ccpb.RootOfTrust{Cabundles: []string{string(pA.Root.PEM)}}
+		}
+		if rapid.Bool().Draw(t, "policy") {
+			cfg.Policy = &ccpb.Policy{HeaderPolicy: &ccpb.HeaderPolicy{QeVendorId: append([]byte{}, w.Q.VendorID[:]...)}, TdQuoteBodyPolicy: &ccpb.TDQuoteBodyPolicy{MrTd: append([]byte{}, w.Q.MrTd[:]...)}}
+		}
+		c := &c19Case{classes: map[int]string{}, netMode: "unreachable"}
+		c.args = []string{"-inform=bin", "-in=" + wr("quote.dat", w.Raw)}
+		if cfg.RootOfTrust == nil {
+			c.args = append(c.args, "-trusted_roots="+wr("roots.pem", pA.Root.PEM))
+		}
+		text, _ := prototext.Marshal(cfg)
+		bin, _ := proto.Marshal(cfg)
+		unknownText := []string{"no_such_field: 1\n", "rootoftrust { }\n", "Policy { }\n", "policy_v2 { header_policy { } }\n"}
+		if cfg.RootOfTrust == nil {
+			unknownText = append(unknownText, "root_of_trust { cabundle_path: \"/nonexistent.pem\" }\n", "root_of_trust { check_crls: false }\n")
+		}
+		if cfg.Policy == nil {
+			unknownText = append(unknownText, "policy { mr_td: \"00\" }\n", "policy { td_quote_body_policy { mrtd: \"00\" } }\n", "policy { header_policy { min_qe_svn: 0 } }\n")
+		}
+		kind := rapid.SampledFrom([]string{"text", "binary", "text-unknown-field", "text-unknown-field", "text-unterminated", "text-wrong-type", "binary-truncated", "missing", "empty-text", "empty-binary"}).Draw(t, "configKind")
+		malformed := true
+		switch kind {
+		case "text":
+			c.args, malformed = append(c.args, "-config="+wr("config.textproto", text)), false
+		case "binary":
+			c.args, malformed = append(c.args, "-config="+wr("config.pb", bin)), false
+		case "empty-text":
+			c.args, malformed = append(c.args, "-config="+wr("config.textproto", []byte{})), false
+			if cfg.RootOfTrust != nil {
+				// the empty config configures no root and no flag does either: the quote's root is then not trusted (exit 2, not a decoding matter)
+				c.fault(clsVerify, "empty config: no root of trust")
+			}
+		case "empty-binary":
+			c.args, malformed = append(c.args, "-config="+wr("config.pb", []byte{})), false
+			if cfg.RootOfTrust != nil {
+				c.fault(clsVerify, "empty config: no root of trust")
+			}
+		case "text-unknown-field":
+			extra := rapid.SampledFrom(unknownText).Draw(t, "unknown")
+			b := append(append(append([]byte{}, text...), '\n'), extra...)
+			if rapid.Bool().Draw(t, "first") {
+				b = append([]byte(extra), text...)
+			}
+			c.args = append(c.args, "-config="+wr("config.textproto", b))
+			c.desc = append(c.desc, "unknown:"+strings.TrimSpace(extra))
+		case "text-unterminated":
+			c.args = append(c.args, "-config="+wr("config.textproto", append(append([]byte{}, text...), "\npolicy { header_policy { "...)))
+		case "text-wrong-type":
+			c.args = append(c.args, "-config="+wr("config.textproto", append(append([]byte{}, text...), "\nroot_of_trust: 7\n"...)))
+		case "binary-truncated":
+			b := append(append([]byte{}, bin...), 0x0a, 0x20, 0x01) // a length-delimited field announcing 32 bytes, 1 present
+			c.args = append(c.args, "-config="+wr("config.pb", b))
+		case "missing":
+			c.args = append(c.args, "-config="+filepath.Join(dir, "no-such-config.textproto"))
+		}
+		if malformed {
+			c.fault(clsUsage, "config "+kind)
+		}
+		c.desc = append(c.desc, "config-decoding:"+kind)
+		gen.Eval()
+		code, stderr, err := runTool(tool, c)
+		if err != nil {
+			gen.HarnessError(t, "cannot execute the tool: %v", err)
+		}
+		allowed := c.allowed()
+		var al []int
+		for k := range allowed {
+			al = append(al, k)
+		}
+		files := map[string]string{}
+		if ents, err := os.ReadDir(dir); err == nil {
+			for _, e := range ents {
+				if b, err := os.ReadFile(filepath.Join(dir, e.Name())); err == nil {
+					files[e.Name()] = hex.EncodeToString(b)
+				}
+			}
+		}
+		rp := map[string]any{"kind": "tool", "args": templArgs(c.args, dir), "desc": c.desc, "files": files, "stdin_hex": "", "allowed": al, "dir": dir}
+		detail := fmt.Sprintf("args=%v case=%v: exit %d, allowed %v; stderr: %s", relArgs(c.args, dir), c.desc, code, al, lastLine(stderr))
+		if strings.Contains(stderr, "panic:") || strings.Contains(stderr, "goroutine ") {
+			gen.Fail(t, gen.Violation{Key: "tool-crash:" + crashSite(stderr), Oracle: "no input makes the tool crash", Detail: detail, Replay: rp})
+			return
+		}
+		if !allowed[code] {
+			key := fmt.Sprintf("config-decoding:%s:exit-%d-instead-of-%v", kind, code, al)
+			gen.Fail(t, gen.Violation{Key: key, Oracle: "a malformed config exits 1; a well-formed, satisfied one exits 0", Detail: detail, Replay: rp})
+			return
+		}
+		gen.Class("config-decoding:" + kind)
+		gen.NonTrivial("config-decoding", kind, strings.Join(c.desc, ";"), cfg.RootOfTrust != nil, cfg.Policy != nil)
+		gen.Sample("config-decoding", map[string]any{"config": kind, "exit": code})
 	})
 
 	// Library-level companion: fetch failures are reported as distinguishable error types.
@@ -813,6 +976,13 @@ func init() {
 			cs.args = append(cs.args, strings.ReplaceAll(a.(string), "{dir}/", dir+"/"))
 		}
 		cs.stdin, _ = hex.DecodeString(c["stdin_hex"].(string))
+		cs.tz, _ = c["tz"].(string)
+		if nn, _ := c["near_now"].(bool); nn {
+			if made, _ := c["made_at"].(float64); time.Since(time.Unix(int64(made), 0)) > 30*time.Minute {
+				fmt.Println("replay: the case holds a certificate window relative to the time it was generated at; too old to be judged again")
+				return ""
+			}
+		}
 		code, stderr, err := runTool(tool, cs)
 		if err != nil {
 			return err.Error()
